@@ -156,6 +156,18 @@ class Real:
         self.mutate = mutate
         self.overrides = st.helper() if st.helper else {}
         self._ex, self._Catalog, self._Controller, self._Named = ex, Catalog, Controller, NamedExpression
+        # build in index order (children first), skipping what lies below helper-provided catalogs
+        need, stack = set(), [len(st.nodes)]
+        while stack:
+            i = stack.pop()
+            if i in need:
+                continue
+            need.add(i)
+            nd = st.nodes[i - 1]
+            if not (nd['op'] == 'cat' and nd['name'] in self.overrides):
+                stack.extend(nd['kids'])
+        for i in sorted(need):
+            self.build(i)
         self.expr = self.build(len(st.nodes))
         # every real catalog reachable from the root (through ALL members), by name
         self.catalogs: dict[str, list] = {}
